@@ -251,7 +251,10 @@ Definition c13_outside_urls : list string := (
 
 (* ---- type URLs that have a registered key parser (RegisterKeyParser) which
    this model does not transcribe; keysets containing them are decided by the
-   direct check only ---- *)
+   direct check only.  ML-DSA private keys (plain, JWT, composite) need the
+   library's own ML-DSA key generation, for which the Go standard library has
+   no counterpart to act as oracle; the composite and PRF-based-deriver keys
+   nest another key / key template ---- *)
 Definition unmodelled_urls : list string := (
   "type.googleapis.com/google.crypto.tink.PrfBasedDeriverKey" ::
   "type.googleapis.com/google.crypto.tink.JwtMlDsaPrivateKey" ::
